@@ -54,12 +54,17 @@ RNNStep(X, W, R, B, t, H, f, Hd) ==
        pre == M2(Bt, Hd, LAMBDA b, j : Pre(X, W, R, B, t, b, H[b], 0, j, Hd, 1))
    IN IF ~All2(Bt, Hd, LAMBDA b, j : ActOK(f, pre[b][j]) /\ Mag(Act(f, pre[b][j])) <= HCMAX) THEN [H |-> H, ok |-> FALSE]
       ELSE [H |-> M2(Bt, Hd, LAMBDA b, j : Act(f, pre[b][j])), ok |-> TRUE]
-RECURSIVE RNNRun(_, _, _, _, _, _, _, _, _)
-RNNRun(X, W, R, B, t, H, Ys, f, Hd) ==
+\* sequence_lens (L: one length per sample, or <<>> when the input is absent): a sample is stepped while t <= L[b]; afterwards its
+\* state stays as it is and its rows of Y are zero.  A step treats every sample on its own, so masking after the step is exact.
+Alive(L, b, t) == L = <<>> \/ t <= L[b]
+KeepState(new, old, L, t) == [b \in 1..Len(new) |-> IF Alive(L, b, t) THEN new[b] ELSE old[b]]
+MaskedY(new, L, t) == [b \in 1..Len(new) |-> IF Alive(L, b, t) THEN new[b] ELSE [j \in 1..Len(new[b]) |-> 0]]
+RECURSIVE RNNRun(_, _, _, _, _, _, _, _, _, _)
+RNNRun(X, W, R, B, t, H, Ys, f, Hd, L) ==
    IF t > X.shape[1] THEN [H |-> H, Ys |-> Ys, ok |-> TRUE]
    ELSE Let(RNNStep(X, W, R, B, t, H, f, Hd), LAMBDA s :
         IF ~s.ok THEN [H |-> H, Ys |-> Ys, ok |-> FALSE]
-        ELSE Let(s.H, LAMBDA h : Let(Append(Ys, h), LAMBDA ys : RNNRun(X, W, R, B, t + 1, h, ys, f, Hd))))
+        ELSE Let(KeepState(s.H, H, L, t), LAMBDA h : Let(Append(Ys, MaskedY(s.H, L, t)), LAMBDA ys : RNNRun(X, W, R, B, t + 1, h, ys, f, Hd, L))))
 
 \* --------------------------------------------------------------------- GRU
 \* gates z = 0, r = 1, h = 2
@@ -82,12 +87,12 @@ GRUStep(X, W, R, B, t, H, f, g, lbr, Hd) ==
                            IF ~All2(Bt, Hd, LAMBDA b, j : ProdSafe(1 - z[b][j], hh[b][j]) /\ ProdSafe(z[b][j], H[b][j])) THEN Fail
                            ELSE LET Hn == M2(Bt, Hd, LAMBDA b, j : (1 - z[b][j]) * hh[b][j] + z[b][j] * H[b][j]) IN
                                 IF ~All2(Bt, Hd, LAMBDA b, j : Mag(Hn[b][j]) <= HCMAX) THEN Fail ELSE [H |-> Hn, ok |-> TRUE]
-RECURSIVE GRURun(_, _, _, _, _, _, _, _, _, _, _)
-GRURun(X, W, R, B, t, H, Ys, f, g, lbr, Hd) ==
+RECURSIVE GRURun(_, _, _, _, _, _, _, _, _, _, _, _)
+GRURun(X, W, R, B, t, H, Ys, f, g, lbr, Hd, L) ==
    IF t > X.shape[1] THEN [H |-> H, Ys |-> Ys, ok |-> TRUE]
    ELSE Let(GRUStep(X, W, R, B, t, H, f, g, lbr, Hd), LAMBDA s :
         IF ~s.ok THEN [H |-> H, Ys |-> Ys, ok |-> FALSE]
-        ELSE Let(s.H, LAMBDA h : Let(Append(Ys, h), LAMBDA ys : GRURun(X, W, R, B, t + 1, h, ys, f, g, lbr, Hd))))
+        ELSE Let(KeepState(s.H, H, L, t), LAMBDA h : Let(Append(Ys, MaskedY(s.H, L, t)), LAMBDA ys : GRURun(X, W, R, B, t + 1, h, ys, f, g, lbr, Hd, L))))
 
 \* -------------------------------------------------------------------- LSTM
 \* gates i = 0, o = 1, f = 2, c = 3 ; peepholes p_i = block 0, p_o = block 1, p_f = block 2
@@ -113,12 +118,13 @@ LSTMStep(X, W, R, B, P, t, H, C, fa, ga, ha, coupled, Hd) ==
                              ELSE LET Hn == M2(Bt, Hd, LAMBDA b, j : og[b][j] * Act(ha, Cn[b][j])) IN
                                   IF ~All2(Bt, Hd, LAMBDA b, j : Mag(Hn[b][j]) <= HCMAX) THEN Fail
                                   ELSE [H |-> Hn, C |-> Cn, ok |-> TRUE]
-RECURSIVE LSTMRun(_, _, _, _, _, _, _, _, _, _, _, _, _, _)
-LSTMRun(X, W, R, B, P, t, H, C, Ys, fa, ga, ha, coupled, Hd) ==
+RECURSIVE LSTMRun(_, _, _, _, _, _, _, _, _, _, _, _, _, _, _)
+LSTMRun(X, W, R, B, P, t, H, C, Ys, fa, ga, ha, coupled, Hd, L) ==
    IF t > X.shape[1] THEN [H |-> H, C |-> C, Ys |-> Ys, ok |-> TRUE]
    ELSE Let(LSTMStep(X, W, R, B, P, t, H, C, fa, ga, ha, coupled, Hd), LAMBDA s :
         IF ~s.ok THEN [H |-> H, C |-> C, Ys |-> Ys, ok |-> FALSE]
-        ELSE Let(s.H, LAMBDA h : Let(s.C, LAMBDA c : Let(Append(Ys, h), LAMBDA ys : LSTMRun(X, W, R, B, P, t + 1, h, c, ys, fa, ga, ha, coupled, Hd)))))
+        ELSE Let(KeepState(s.H, H, L, t), LAMBDA h : Let(KeepState(s.C, C, L, t), LAMBDA c : Let(Append(Ys, MaskedY(s.H, L, t)), LAMBDA ys :
+                LSTMRun(X, W, R, B, P, t + 1, h, c, ys, fa, ga, ha, coupled, Hd, L)))))
 
 \* ------------------------------------------------------------- node semantics
 \* inputs: <<X, W, R, B, sequence_lens, initial_h (, initial_c, P)>> padded with Nil; attrs as usual.
@@ -141,23 +147,28 @@ SemRecurrentV(op, attrs, inputs, nout) ==
        acts0 == AttrV(attrs, "activations", DefaultActs(op))
        \* the ONNX documentation spells the names "Relu", "Tanh", "Sigmoid": such a name is refused, or it is honoured as THAT function
        acts == [i \in 1..Len(acts0) |-> CASE acts0[i] = "Relu" -> "relu" [] acts0[i] = "Tanh" -> "tanh" [] acts0[i] = "Sigmoid" -> "sigmoid" [] OTHER -> acts0[i]]
-       refusable == \/ HasAttr(attrs, "clip") \/ AttrV(attrs, "direction", "forward") # "forward" \/ ~IsNil(sl)
+       refusable == \/ HasAttr(attrs, "clip") \/ AttrV(attrs, "direction", "forward") # "forward"
                     \/ HasAttr(attrs, "activation_alpha") \/ HasAttr(attrs, "activation_beta")
+       \* sequence_lens: the library may refuse it; if it honours it, then with the meaning ONNX gives it (well-formed: one int32 length
+       \* in 1..seq_length per sample; anything else is only required not to crash)
+       lensOK == IsNil(sl) \/ (sl.dt = "i32" /\ Len(X.shape) = 3 /\ sl.shape = <<X.shape[2]>> /\ \A b \in 1..Len(sl.data) : sl.data[b] >= 1 /\ sl.data[b] <= X.shape[1])
+       L == IF IsNil(sl) THEN <<>> ELSE sl.data
    IN IF Len(acts) # NActs(op) THEN [ok |-> TRUE, allowed |-> MustError]
       ELSE IF \E i \in 1..Len(acts) : acts[i] \notin KnownActs THEN [ok |-> TRUE, allowed |-> ValueOrError(<<>>)]  \* a name the library does not know: refuse (or honour)
       ELSE IF refusable THEN [ok |-> TRUE, allowed |-> ValueOrError(<<>>)]       \* generated only to be refused
       ELSE IF Hd < 1 \/ ~RecShapesOK(op, inputs, Hd) THEN [ok |-> TRUE, allowed |-> NoCrash]
+      ELSE IF ~lensOK THEN [ok |-> TRUE, allowed |-> NoCrash]
       ELSE LET Bt == X.shape[2] S == X.shape[1]
                H0 == Init2(h0, Bt, Hd) C0 == Init2(c0, Bt, Hd)
-               run == CASE op = "RNN"  -> RNNRun(X, W, R, B, 1, H0, <<>>, acts[1], Hd)
-                        [] op = "GRU"  -> GRURun(X, W, R, B, 1, H0, <<>>, acts[1], acts[2], AttrV(attrs, "linear_before_reset", 0) # 0, Hd)
-                        [] op = "LSTM" -> LSTMRun(X, W, R, B, P, 1, H0, C0, <<>>, acts[1], acts[2], acts[3], AttrV(attrs, "input_forget", 0) # 0, Hd)
+               run == CASE op = "RNN"  -> RNNRun(X, W, R, B, 1, H0, <<>>, acts[1], Hd, L)
+                        [] op = "GRU"  -> GRURun(X, W, R, B, 1, H0, <<>>, acts[1], acts[2], AttrV(attrs, "linear_before_reset", 0) # 0, Hd, L)
+                        [] op = "LSTM" -> LSTMRun(X, W, R, B, P, 1, H0, C0, <<>>, acts[1], acts[2], acts[3], AttrV(attrs, "input_forget", 0) # 0, Hd, L)
            IN IF ~run.ok THEN [ok |-> FALSE, allowed |-> NoCrash]
               ELSE LET Y  == T(X.dt, <<S, 1, Bt, Hd>>, FlatY(run.Ys, 1, Bt, Hd))
                        Yh == T(X.dt, <<1, Bt, Hd>>, Flat2(run.H, Bt, Hd))
                        outs == IF op = "LSTM" THEN <<Y, Yh, T(X.dt, <<1, Bt, Hd>>, Flat2(run.C, Bt, Hd))>> ELSE <<Y, Yh>>
                        a == MustValue(Take(outs, nout))
                    IN [ok |-> TRUE,
-                       allowed |-> Weaken(X.dt # "f32" \/ (op = "LSTM" /\ AttrV(attrs, "input_forget", 0) # 0) \/ acts # acts0, a)]
+                       allowed |-> Weaken(X.dt # "f32" \/ (op = "LSTM" /\ AttrV(attrs, "input_forget", 0) # 0) \/ acts # acts0 \/ ~IsNil(sl), a)]
 SemRecurrent(op, attrs0, inputs0, nout) == Let(attrs0, LAMBDA attrs : Let(inputs0, LAMBDA inputs : SemRecurrentV(op, attrs, inputs, nout)))
 =============================================================================
